@@ -374,7 +374,13 @@ def _strformat(I, fmt, args, kwargs):
             out.append(format(pv, spec or ""))
         except (ValueError, TypeError):
             sv = I.call(I.builtins["str" if conv != "r" else "repr"], [v], {})
-            out.append(format(sv, spec or "") if isinstance(sv, str) else "<?>")
+            if isinstance(sv, str):
+                try:
+                    out.append(format(sv, spec or ""))
+                except ValueError:
+                    out.append(sv)         # a numeric format code on a symbolic number: its canonical text stands for the digits
+            else:
+                out.append("<?>")
     return "".join(out)
 
 
